@@ -1,4 +1,10 @@
 def classify(sig, what):
     if sig.startswith('adds-zero-date'):
         return 'Z1: optional properties of format date / date-time are generated as non-pointer strfmt.Date / strfmt.DateTime struct fields with `omitempty`, which encoding/json never omits for struct types: an absent optional date is re-encoded as "0001-01-01" / "0001-01-01T00:00:00.000Z" (a key the document did not have). Repair needs pointer fields or custom marshalling for these formats (behaviour change for users), so recorded rather than repaired.'
+    if sig.startswith('decode-fails') and sig.endswith('| Puppy'):
+        return 'PD1: a subtype of a subtype (Puppy: allOf[$ref Dog], Dog: allOf[$ref Pet], Pet has the discriminator) is not registered in the base type\'s Unmarshal factory: the generated unmarshalPet switch only lists definitions whose allOf refers to the base type directly, so a valid Puppy document is rejected with "invalid kind value" wherever a Pet is expected, and by Puppy\'s own UnmarshalJSON. Repair means walking allOf chains transitively in discriminator discovery (generator/discriminators.go), not a one-line patch.'
+    if sig.startswith('decode-fails') and ('map of base' in sig):
+        return 'PM1: a map whose values are a discriminated base type (additionalProperties: {$ref: Pet}, as a definition or as a property) is generated as map[string]Pet with no custom unmarshaller: encoding/json cannot decode an object into the interface type Pet, so every document with an entry is rejected. (Arrays of base types get an Unmarshal<T>Slice helper; maps have no counterpart.)'
+    if sig.startswith('lossy') and sig.endswith('bignum'):
+        return 'LN1: values of undeclared properties kept by additionalProperties:true are decoded with plain json.Unmarshal into interface{} (float64): an integer that float64 cannot represent (9007199254740993) comes back changed (…992). Tuples and untyped properties use UseNumber; the additionalProperties serializer does not.'
     return None
